@@ -293,7 +293,7 @@ class WSStream:
             ):
                 self.state = ASGIWebsocketState.HTTPCLOSED
                 await self._send_error_response(403)
-            elif message["type"] == "websocket.close":
+            elif message["type"] == "websocket.close" and self.state == ASGIWebsocketState.CONNECTED:
                 self.state = ASGIWebsocketState.CLOSED
                 await self._send_wsproto_event(
                     CloseConnection(
